@@ -50,6 +50,7 @@ struct Puppet {
     cnt_addr: u64,
     iter_addr: u64,
     done_addr: u64,
+    go_addr: u64,
 }
 
 impl Puppet {
@@ -78,6 +79,14 @@ impl Puppet {
     }
     fn iters(&self) -> Option<Vec<u64>> {
         (0..2).map(|i| probe::read_u64(self.pid, self.iter_addr + 8 * i)).collect()
+    }
+    /// one more iteration of the puppet's main loop may start (no-op for an ungated puppet)
+    fn credit(&self) {
+        if let Some(v) = probe::read_u64(self.pid, self.go_addr) {
+            if v != u64::MAX {
+                probe::write_mem(self.pid, self.go_addr, &(v + 1).to_le_bytes());
+            }
+        }
     }
     fn state(&self, tid: i32) -> String {
         probe::task_states(self.pid).get(&tid).cloned().unwrap_or_else(|| "-".into())
@@ -248,7 +257,7 @@ fn main() {
     std::panic::set_hook(Box::new(|_| {}));
     interpose::set_tracer_thread();
     let (d, rec, outp, pid) = dbg::launch(&exe, &args);
-    let p = Puppet { pid: pid.as_raw(), cnt_addr: sym("C10_CNT"), iter_addr: sym("C10_ITER"), done_addr: sym("C10_DONE") };
+    let p = Puppet { pid: pid.as_raw(), cnt_addr: sym("C10_CNT"), iter_addr: sym("C10_ITER"), done_addr: sym("C10_DONE"), go_addr: sym("C10_GO") };
     let mut cx = Ctx {
         dbg: Some(d),
         rec,
@@ -343,6 +352,7 @@ fn main() {
             let mut n = 0;
             loop {
                 interpose::push(json!({"ev": "cmd", "k": k, "cmd": "continue", "runout": n}));
+                p.credit();
                 let res = run_cmd(&mut cx, "continue");
                 let hooks = cx.rec.take();
                 let obs = if res.get("panic").is_some() { json!({"status": "panicked"}) } else { prompt_probe(&cx) };
@@ -387,9 +397,17 @@ fn main() {
                 hit
             });
             let (pp, dn, sd) = (p.clone(), done.clone(), sends.clone());
+            let early2 = !matches!(name.as_str(), "start" | "continue")
+                || sends.iter().all(|s| s["after"][0] == "wait" && s["after"][1].as_u64().unwrap_or(0) >= 2);
             sched = Some(std::thread::spawn(move || {
                 let mut performed = vec![];
+                let t_start = Instant::now();
+                let mut credited = early2;
                 while !dn.load(Ordering::SeqCst) {
+                    if !credited && (performed.len() == sd.len() || t_start.elapsed() > Duration::from_millis(400)) {
+                        pp.credit();
+                        credited = true;
+                    }
                     if let Some(pc) = interpose::wait_parked(Duration::from_millis(20)) {
                         let idxs: Vec<usize> = std::mem::take(&mut *fired.lock().unwrap());
                         for i in idxs {
@@ -420,6 +438,11 @@ fn main() {
                 }
                 performed
             }));
+        }
+        // gate credit: at once unless the sends of this command are meant to happen before the thread moves on
+        let early = sends.iter().all(|s| s["after"][0] == "wait" && s["after"][1].as_u64().unwrap_or(0) >= 2);
+        if matches!(name.as_str(), "start" | "continue") && early {
+            p.credit();
         }
         let res = run_cmd(&mut cx, &name);
         done.store(true, Ordering::SeqCst);
